@@ -48,10 +48,25 @@ Spec == Init /\ [][Next]_vars
 
 \* ---- the exported placement ---------------------------------------------------------------
 Offsets == << <<0, 0, 0>>, <<1, -2, 3>>, <<-5, 4, -1>>, <<7, 7, -6>>, <<-3, -8, 2>>, <<40, -24, 9>> >>
-OrthoBoxes == << TriBox(7, 0, 9, 0, 0, 8), TriBox(16, 0, 8, 0, 0, 12) >>
-TricBoxes == << TriBox(16, 8, 16, 8, 8, 16), TriBox(14, 3, 13, -5, 4, 15), TriBox(12, -6, 13, 5, -6, 12) >>
+\* image shifts of individual beads, up to 4000 boxes
 Shifts == << <<0, 0, 0>>, <<1, 0, 0>>, <<0, -1, 0>>, <<0, 0, 1>>, <<1, 1, 1>>, <<-1, 2, 0>>, <<3, -3, 2>>,
-             <<-2, 0, -3>>, <<500, -500, 0>>, <<0, 0, -1000>>, <<-700, 900, 1000>> >>
+             <<-2, 0, -3>>, <<500, -500, 0>>, <<0, 0, -1000>>, <<-700, 900, 1000>>, <<4000, -4000, 4000>>,
+             <<-3999, 2500, 0>>, <<0, 4000, -4000>>, <<-4000, -4000, -4000>> >>
+\* Boxes are generated from the hash: edges 6..16 (det <= 4096 keeps Pbc!SpecMI below 2^31), all GROMACS-reduced
+\* off-diagonals -e/2..e/2, every 4th triclinic box at the extreme skew |b_x| = a_x/2, |c_x| = a_x/2, |c_y| = b_y/2
+\* (equalities of the reduction conditions), and every way of requesting the box type that Topology::setBox has.
+Mix(h) == (h * 2039 + 77) % 1000003
+Edge(x) == 6 + (x % 11)
+Off(x, half) == (x % (2 * half + 1)) - half
+Pm(bit, v) == IF bit % 2 = 0 THEN v ELSE -v
+GenBox(h2, h3, tric) ==
+  LET ax == Edge(h2)
+      by == Edge(h2 \div 11)
+      cz == Edge(h2 \div 121)
+      ext == (h2 \div 1331) % 4 = 0
+  IN IF ~tric THEN TriBox(ax, 0, by, 0, 0, cz)
+     ELSE IF ext THEN TriBox(ax, Pm(h3, ax \div 2), by, Pm(h3 \div 2, ax \div 2), Pm(h3 \div 4, by \div 2), cz)
+     ELSE TriBox(ax, Off(h3, ax \div 2), by, Off(h3 \div 17, ax \div 2), Off(h3 \div 289, by \div 2), cz)
 Rows(B) == <<B.a[1], B.b[1], B.c[1], B.a[2], B.b[2], B.c[2], B.a[3], B.b[3], B.c[3]>>
 
 \* w is THE shortest image of itself, and (triclinic) below half the shortest box height --
@@ -62,20 +77,28 @@ Regular(B, typ, w) ==
 
 Place(cc) ==
   LET h == HashU(cc.u)
+      h2 == Mix(h)
+      h3 == Mix(h2)
       G == GOf(h % 48)
       gu == ActU(G, cc.u)
       o == Offsets[((h \div 48) % Len(Offsets)) + 1]
+      \* 0: no box; 1: a box but type "open" requested; 2: diagonal box; 3: triclinic box
       sel == (h \div 288) % 4
-      typ0 == IF sel = 2 THEN "ortho" ELSE IF sel = 3 THEN "tric" ELSE "open"
-      B0 == IF sel = 2 THEN OrthoBoxes[((h \div 1152) % Len(OrthoBoxes)) + 1]
-            ELSE IF sel = 3 THEN TricBoxes[((h \div 1152) % Len(TricBoxes)) + 1] ELSE ZeroBox
-      reg == typ0 = "open" \/ \A i \in DOMAIN gu : Regular(B0, typ0, gu[i])
+      B0 == IF sel = 0 THEN ZeroBox ELSE GenBox(h2, h3, sel = 3)
+      rq == (h3 \div 8) % 3
+      req0 == CASE sel = 0 -> "auto"
+                [] sel = 1 -> "open"
+                [] sel = 2 -> (IF rq = 0 THEN "auto" ELSE IF rq = 1 THEN "ortho" ELSE "tric")
+                [] sel = 3 -> (IF rq = 0 THEN "auto" ELSE "tric")
+      typ0 == EffType(B0, req0)
+      reg == typ0 = "open" \/ (Reduced(B0) /\ \A i \in DOMAIN gu : Regular(B0, typ0, gu[i]))
       typ == IF reg THEN typ0 ELSE "open"
+      req == IF reg THEN req0 ELSE "open"
       B == IF reg THEN B0 ELSE ZeroBox
       rel == RelPos(cc.k, gu)
-      kk(i) == IF typ = "open" THEN Zero3 ELSE Shifts[((h \div 3456 + 5 * i) % Len(Shifts)) + 1]
-      pos == [i \in DOMAIN rel |-> Image(B, VAdd(o, rel[i]), kk(i))]
-  IN [G |-> G, gu |-> gu, typ |-> typ, B |-> B, pos |-> pos]
+      kk(i) == IF typ = "open" THEN Zero3 ELSE Shifts[((h3 \div 24 + 5 * i) % Len(Shifts)) + 1]
+      pos == [i \in DOMAIN rel |-> IF typ = "open" THEN VAdd(o, rel[i]) ELSE Image(B, VAdd(o, rel[i]), kk(i))]
+  IN [G |-> G, gu |-> gu, typ |-> typ, req |-> req, B |-> B, pos |-> pos]
 
 \* connection vector of the pair pr (1-based bead numbers) as the specification defines it
 ConnSpec(pl, pr) ==
@@ -110,6 +133,6 @@ InvPlace == ph = 1 =>
              /\ \A t \in {<<1, 2, 3>>, <<-17, 0, 5>>} :
                   VSub(VAdd(pl.pos[prs[n][2]], t), VAdd(pl.pos[prs[n][1]], t)) = d
      \* Vector: the placement with the expected integer right-hand sides, one JSON line per geometry
-     /\ Emit => PrintT(ToJson([k |-> c.k, p |-> pl.pos, box |-> Rows(pl.B), typ |-> pl.typ,
+     /\ Emit => PrintT(ToJson([k |-> c.k, p |-> pl.pos, box |-> Rows(pl.B), typ |-> pl.typ, req |-> pl.req,
                                vals |-> ValsOf(c.k, pl.gu), g |-> GradsOf(c.k, pl.gu), u |-> pl.gu]))
 =============================================================================
